@@ -34,6 +34,27 @@ from forml.provider.sink import null
 
 LOGGER = logging.getLogger(__name__)
 
+_VERIF_TRACE = os.environ.get('FORML_VERIF_TRACE') if os.environ.get('FORML_VERIF') == '1' else None
+_VERIF_QUEUE = None
+
+
+def _verif_trace(event: str, tasks: typing.Any, *args: typing.Any) -> None:
+    """Verification hook (active only with FORML_VERIF=1 and FORML_VERIF_TRACE=<file>): append one scheduling event
+    of the executor identified by its tasks queue (or of the queue this worker process is bound to)."""
+    global _VERIF_QUEUE  # pylint: disable=global-statement
+    if not _VERIF_TRACE:
+        return
+    if event == 'bind':
+        _VERIF_QUEUE = tasks
+        return
+    import json  # pylint: disable=import-outside-toplevel
+    import time  # pylint: disable=import-outside-toplevel
+
+    token = getattr(tasks if tasks is not None else _VERIF_QUEUE, '_token', None)
+    line = json.dumps([time.monotonic_ns(), os.getpid(), event, f'{getattr(token, "address", "")}/{getattr(token, "id", "")}', *args])
+    with open(_VERIF_TRACE, 'a', encoding='utf-8') as trace:
+        trace.write(line + '\n')
+
 
 class Result(typing.NamedTuple):
     """Result tuple."""
@@ -63,6 +84,7 @@ class Task(typing.NamedTuple):
         Returns:
             Result instance.
         """
+        _verif_trace('finish', None, self.id, True)
         return Result(self.id, outcome, None)
 
     def failure(self, exception: BaseException) -> 'Result':
@@ -74,6 +96,7 @@ class Task(typing.NamedTuple):
         Returns:
             Result instance.
         """
+        _verif_trace('finish', None, self.id, False)
         return Result(self.id, None, exception)
 
 
@@ -105,11 +128,13 @@ class Pool(context.SpawnProcess):
         def run(self) -> None:
             """Worker loop."""
             LOGGER.debug('Worker loop %s starting', self.name)
+            _verif_trace('bind', self._tasks)
             while not self._stopped.is_set():
                 try:
                     task: Task = self._tasks.get(timeout=1)
                 except queue.Empty:
                     continue
+                _verif_trace('take', self._tasks, task.id)
                 try:
                     self._results.put_nowait(task.success(self._runner.call(task.entry)))
                 except forml.AnyError as err:
@@ -190,6 +215,7 @@ class Executor(threading.Thread):
                 result = self._results.get(timeout=1)
             except queue.Empty:
                 continue
+            _verif_trace('deliver', self._tasks, result.id)
             if result.exception:
                 self._pending[result.id].set_exception(result.exception)
             else:
@@ -212,6 +238,8 @@ class Executor(threading.Thread):
             raise RuntimeError('Executor not running')
         outcome = futures.Future()
         self._pending[self._index] = outcome
+        if _VERIF_TRACE:
+            _verif_trace('submit', self._tasks, self._index, str(self._pool._instance), str([list(r) for r in entry.data.to_rows()])[:200])  # pylint: disable=protected-access
         self._tasks.put(Task(self._index, entry))
         self._index += 1
         return outcome
